@@ -2,8 +2,11 @@
 (***************************************************************************)
 (* Static rule violations and what the compiler owes for them (C05).       *)
 (*                                                                         *)
-(* A SITE is a place in a valid host program: the routine it belongs to    *)
-(* and the stack of blocks that enclose it (innermost last).  A FAULT is a *)
+(* A SITE is a place in a valid host program: the routine it belongs to,   *)
+(* the stack of blocks that enclose it (innermost last), and - when the    *)
+(* innermost block is an IF block - whether an ELSE (ce) or an ELSEIF (ci) *)
+(* may still be written there: no ELSE arm yet and, for ELSE, no ELSEIF    *)
+(* further down.  A FAULT is a *)
 (* construct from the catalogue; injected at a site it either violates a   *)
 (* static rule there - then the program must be rejected with one of the   *)
 (* categories of that rule, at a position inside the allowed line span -   *)
@@ -22,16 +25,16 @@
 EXTENDS Integers, Sequences, FiniteSets
 
 Sites == {
-    [name |-> "main_top",    routine |-> "main",     blocks |-> <<>>],
-    [name |-> "main_if",     routine |-> "main",     blocks |-> <<"if">>],
-    [name |-> "main_for",    routine |-> "main",     blocks |-> <<"for">>],
-    [name |-> "main_do",     routine |-> "main",     blocks |-> <<"do">>],
-    [name |-> "main_select", routine |-> "main",     blocks |-> <<"select">>],
-    [name |-> "main_nest",   routine |-> "main",     blocks |-> <<"for", "if", "do">>],
-    [name |-> "sub_top",     routine |-> "sub",      blocks |-> <<>>],
-    [name |-> "sub_while",   routine |-> "sub",      blocks |-> <<"while">>],
-    [name |-> "fn_top",      routine |-> "function", blocks |-> <<>>],
-    [name |-> "fn_for",      routine |-> "function", blocks |-> <<"for">>] }
+    [name |-> "main_top",    routine |-> "main",     blocks |-> <<>>, ce |-> FALSE, ci |-> FALSE],
+    [name |-> "main_if",     routine |-> "main",     blocks |-> <<"if">>, ce |-> TRUE, ci |-> TRUE],
+    [name |-> "main_for",    routine |-> "main",     blocks |-> <<"for">>, ce |-> FALSE, ci |-> FALSE],
+    [name |-> "main_do",     routine |-> "main",     blocks |-> <<"do">>, ce |-> FALSE, ci |-> FALSE],
+    [name |-> "main_select", routine |-> "main",     blocks |-> <<"select">>, ce |-> FALSE, ci |-> FALSE],
+    [name |-> "main_nest",   routine |-> "main",     blocks |-> <<"for", "if", "do">>, ce |-> FALSE, ci |-> FALSE],
+    [name |-> "sub_top",     routine |-> "sub",      blocks |-> <<>>, ce |-> FALSE, ci |-> FALSE],
+    [name |-> "sub_while",   routine |-> "sub",      blocks |-> <<"while">>, ce |-> FALSE, ci |-> FALSE],
+    [name |-> "fn_top",      routine |-> "function", blocks |-> <<>>, ce |-> FALSE, ci |-> FALSE],
+    [name |-> "fn_for",      routine |-> "function", blocks |-> <<"for">>, ce |-> FALSE, ci |-> FALSE] }
 
 Innermost(s) == IF s.blocks = <<>> THEN "none" ELSE s.blocks[Len(s.blocks)]
 Encloses(s, b) == \E i \in 1..Len(s.blocks) : s.blocks[i] = b
@@ -99,7 +102,8 @@ LegalAt(f, s) ==
       [] f = "exit-do" -> Encloses(s, "do")
       [] f = "exit-sub" -> s.routine = "sub"
       [] f = "exit-function" -> s.routine = "function"
-      [] f \in {"stray-else", "stray-elseif"} -> Innermost(s) = "if"
+      [] f = "stray-else" -> Innermost(s) = "if" /\ s.ce
+      [] f = "stray-elseif" -> Innermost(s) = "if" /\ s.ci
       [] f = "stray-case" -> Innermost(s) = "select"
       [] OTHER -> FALSE
 
